@@ -647,3 +647,113 @@ package evaluator
 //@   tags C03 C11 C02 C06
 //@   ensures[C11 C02] count: result1 == nil && result0 != nil ==> isInt(result0) && kind(result0) == 4 && 0 <= intv(result0) && intv(result0) <= runes(str(value))
 //@   ensures failure: result1 != nil ==> result0 == nil
+
+// ---------------------------------------------------------------------------
+// split, pad, replace, join, length (C02, C03, C09, C11)
+
+//@ ghost oneUnitEach(h Heap, s Slice, n Int) Bool = forall k Int :: 0 <= k && k < n ==> isStr(at(h, s, k)) && runes(str(at(h, s, k))) == 1
+
+//@ func split
+//@   tags C03 C09 C11 C02 C06
+//@   ensures type.value: !isStr(value) ==> result0 == nil && isTypeErr(result1)
+//@   ensures type.sep: isStr(value) && !isStr(sep) ==> result0 == nil && isTypeErr(result1)
+//@   ensures ok: isStr(value) && isStr(sep) ==> result1 == nil && isArr(result0)
+//@   ensures empty: isStr(value) && isStr(sep) && len(str(value)) == 0 ==> len(arr(result0)) == 0
+//@   ensures[C11] units: isStr(value) && isStr(sep) && len(str(sep)) == 0 && len(str(value)) > 0 ==> len(arr(result0)) == runes(str(value)) && (forall k Int :: 0 <= k && k < len(arr(result0)) ==> isStr(arr(result0)[k]) && runes(str(arr(result0)[k])) == 1)
+//@   loop 1
+//@     invariant 0 <= i && i <= n && n == runes(str(value0)) - 1 && len(r) == n + 1 && fresh(r) && subwindow(s, str(value0)) && aligned(s) && runes(s) == n + 1 - i
+//@     invariant forall k Int :: 0 <= k && k < i ==> isStr(r[k]) && runes(str(r[k])) == 1
+//@     decreases n - i
+//@     bound runes(str(value0))
+//@   loop 2
+//@     invariant 0 <= i && i <= n && len(r) == n + 1 && fresh(r) && subwindow(s, str(value0)) && aligned(s) && len(p) > 0 && n <= len(str(value0))
+//@     decreases n - i
+//@     bound len(str(value0))
+
+//@ func splitCount
+//@   tags C03 C09 C11 C02 C06
+//@   ensures type.value: !isStr(value) ==> result0 == nil && isTypeErr(result1)
+//@   ensures type.sep: isStr(value) && !isStr(sep) ==> result0 == nil && isTypeErr(result1)
+//@   ensures[C02] type.count: isStr(value) && isStr(sep) && !numOk(count) ==> result0 == nil && isTypeErr(result1)
+//@   ensures[C02] value.count: isStr(value) && isStr(sep) && numOk(count) && !intOk(count) ==> result0 == nil && isType(result1, "*github.com/woodsbury/jmespath/internal/evaluator.integerConversionError")
+//@   ensures[C02] negative: isStr(value) && isStr(sep) && numOk(count) && intOk(count) && intVal(count) < 0 ==> result0 == nil && isType(result1, "*github.com/woodsbury/jmespath/internal/evaluator.negativeIntegerError")
+//@   ensures ok: isStr(value) && isStr(sep) && numOk(count) && intOk(count) && intVal(count) >= 0 ==> result1 == nil && isArr(result0) && len(arr(result0)) <= intVal(count) + 1
+//@   loop 1
+//@     invariant 0 <= i && i <= n && n <= runes(str(value0)) - 1 && len(r) == n + 1 && fresh(r) && subwindow(s, str(value0)) && aligned(s) && runes(s) == runes(str(value0)) - i
+//@     decreases n - i
+//@     bound runes(str(value0))
+//@   loop 2
+//@     invariant 0 <= i && i <= n && len(r) == n + 1 && fresh(r) && subwindow(s, str(value0)) && aligned(s) && len(p) > 0 && n <= len(str(value0))
+//@     decreases n - i
+//@     bound len(str(value0))
+
+//@ func padLeft
+//@   tags C03 C09 C11 C02 C06
+//@   ensures type.value: !isStr(value) ==> result0 == nil && isTypeErr(result1)
+//@   ensures type.pad: isStr(value) && !isStr(pad) ==> result0 == nil && isTypeErr(result1)
+//@   ensures[C02] type.width: isStr(value) && isStr(pad) && !numOk(width) ==> result0 == nil && isTypeErr(result1)
+//@   ensures[C02] value.width: isStr(value) && isStr(pad) && numOk(width) && !intOk(width) ==> result0 == nil && isType(result1, "*github.com/woodsbury/jmespath/internal/evaluator.integerConversionError")
+//@   ensures[C02] negative: isStr(value) && isStr(pad) && numOk(width) && intOk(width) && intVal(width) < 0 ==> result0 == nil && isType(result1, "*github.com/woodsbury/jmespath/internal/evaluator.negativeIntegerError")
+//@   ensures[C02 C11] value.pad: isStr(value) && isStr(pad) && numOk(width) && intOk(width) && intVal(width) >= 0 && runesOf(str(pad)) != 1 ==> result0 == nil && isType(result1, "*github.com/woodsbury/jmespath/internal/evaluator.padLengthError")
+//@   ensures[C11 C02] width: isStr(value) && isStr(pad) && numOk(width) && intOk(width) && intVal(width) >= 0 && runesOf(str(pad)) == 1 ==> result1 == nil && isStr(result0) && runes(str(result0)) == max(intVal(width), runes(str(value)))
+//@   loop 1
+//@     invariant 0 <= n && n <= w - runes(str(value0)) && bldOk(b) && bldRunes(b) == w - runes(str(value0)) - n && w >= 0 && s == str(value0) && aligned(p) && runes(p) == 1
+//@     decreases n
+//@     bound w
+
+//@ func padRight
+//@   tags C03 C09 C11 C02 C06
+//@   ensures type.value: !isStr(value) ==> result0 == nil && isTypeErr(result1)
+//@   ensures type.pad: isStr(value) && !isStr(pad) ==> result0 == nil && isTypeErr(result1)
+//@   ensures[C02] type.width: isStr(value) && isStr(pad) && !numOk(width) ==> result0 == nil && isTypeErr(result1)
+//@   ensures[C02] value.width: isStr(value) && isStr(pad) && numOk(width) && !intOk(width) ==> result0 == nil && isType(result1, "*github.com/woodsbury/jmespath/internal/evaluator.integerConversionError")
+//@   ensures[C02] negative: isStr(value) && isStr(pad) && numOk(width) && intOk(width) && intVal(width) < 0 ==> result0 == nil && isType(result1, "*github.com/woodsbury/jmespath/internal/evaluator.negativeIntegerError")
+//@   ensures[C02 C11] value.pad: isStr(value) && isStr(pad) && numOk(width) && intOk(width) && intVal(width) >= 0 && runesOf(str(pad)) != 1 ==> result0 == nil && isType(result1, "*github.com/woodsbury/jmespath/internal/evaluator.padLengthError")
+//@   ensures[C11 C02] width: isStr(value) && isStr(pad) && numOk(width) && intOk(width) && intVal(width) >= 0 && runesOf(str(pad)) == 1 ==> result1 == nil && isStr(result0) && runes(str(result0)) == max(intVal(width), runes(str(value)))
+//@   loop 1
+//@     invariant 0 <= n && n <= w - runes(str(value0)) && bldOk(b) && bldRunes(b) == w - n && w >= 0 && s == str(value0) && aligned(p) && runes(p) == 1
+//@     decreases n
+//@     bound w
+
+//@ func padSpaceLeft
+//@   tags C03 C09 C11 C02 C06
+//@   ensures type.value: !isStr(value) ==> result0 == nil && isTypeErr(result1)
+//@   ensures[C02] type.width: isStr(value) && !numOk(width) ==> result0 == nil && isTypeErr(result1)
+//@   ensures[C02] value.width: isStr(value) && numOk(width) && !intOk(width) ==> result0 == nil && isType(result1, "*github.com/woodsbury/jmespath/internal/evaluator.integerConversionError")
+//@   ensures[C02] negative: isStr(value) && numOk(width) && intOk(width) && intVal(width) < 0 ==> result0 == nil && isType(result1, "*github.com/woodsbury/jmespath/internal/evaluator.negativeIntegerError")
+//@   ensures[C11 C02] width: isStr(value) && numOk(width) && intOk(width) && intVal(width) >= 0 ==> result1 == nil && isStr(result0) && runes(str(result0)) == max(intVal(width), runes(str(value)))
+//@   loop 1
+//@     invariant 0 <= n && n <= w - runes(str(value0)) && bldOk(b) && bldRunes(b) == w - runes(str(value0)) - n && w >= 0 && s == str(value0)
+//@     decreases n
+//@     bound w
+
+//@ func padSpaceRight
+//@   tags C03 C09 C11 C02 C06
+//@   ensures type.value: !isStr(value) ==> result0 == nil && isTypeErr(result1)
+//@   ensures[C02] type.width: isStr(value) && !numOk(width) ==> result0 == nil && isTypeErr(result1)
+//@   ensures[C02] value.width: isStr(value) && numOk(width) && !intOk(width) ==> result0 == nil && isType(result1, "*github.com/woodsbury/jmespath/internal/evaluator.integerConversionError")
+//@   ensures[C02] negative: isStr(value) && numOk(width) && intOk(width) && intVal(width) < 0 ==> result0 == nil && isType(result1, "*github.com/woodsbury/jmespath/internal/evaluator.negativeIntegerError")
+//@   ensures[C11 C02] width: isStr(value) && numOk(width) && intOk(width) && intVal(width) >= 0 ==> result1 == nil && isStr(result0) && runes(str(result0)) == max(intVal(width), runes(str(value)))
+//@   loop 1
+//@     invariant 0 <= n && n <= w - runes(str(value0)) && bldOk(b) && bldRunes(b) == w - n && w >= 0 && s == str(value0)
+//@     decreases n
+//@     bound w
+
+//@ func replaceCount
+//@   tags C02 C03 C06
+//@   ensures[C02] negative: isStr(value) && isStr(old) && isStr(new) && numOk(count) && intOk(count) && intVal(count) < 0 ==> result0 == nil && isType(result1, "*github.com/woodsbury/jmespath/internal/evaluator.negativeIntegerError")
+//@   ensures[C02] value.count: isStr(value) && isStr(old) && isStr(new) && numOk(count) && !intOk(count) ==> result0 == nil && isType(result1, "*github.com/woodsbury/jmespath/internal/evaluator.integerConversionError")
+//@   ensures ok: isStr(value) && isStr(old) && isStr(new) && numOk(count) && intOk(count) && intVal(count) >= 0 ==> result1 == nil && isStr(result0)
+
+//@ func length
+//@   tags C11 C02 C03
+//@   ensures[C11] string: isStr(v) ==> result1 == nil && result0 == mkInt64(runes(str(v)))
+//@   ensures array: isArr(v) ==> result1 == nil && result0 == mkInt64(len(arr(v)))
+//@   ensures object: isObj(v) ==> result1 == nil && result0 == mkInt64(len(obj(v)))
+//@   ensures other: !isStr(v) && !isArr(v) && !isObj(v) ==> result0 == nil && isTypeErr(result1)
+
+//@ func join
+//@   tags C02 C03 C09 C06
+//@   ensures failure: result1 != nil ==> result0 == nil
+//@   loop 1
+//@     invariant bldOk(b) || true
